@@ -748,5 +748,202 @@ theorem toAmount_exact (v : ℤ) (e : ℕ) (hv : |v * 100| < 2 ^ 52) :
       subst h0
       simp
 
+/-! ### the JSON string decoder on the spellings of Spec/C06 -/
+
+open GoblVerif.Spec.C06 in
+theorem hexVal_hexDigit (k : Nat) (h : k < 16) : hexVal? (hexDigit k) = some k := by
+  interval_cases k <;> decide
+
+open GoblVerif.Spec.C06 in
+/-- `getu4` reads `\u00XX` back as the code of the character -/
+theorem getu4_uEscape (c : Char) (hc : c.toNat < 128) (rest : Text) :
+    getu4 (uEscape c ++ rest) = some c.toNat := by
+  have h1 := hexVal_hexDigit (c.toNat / 16) (by omega)
+  have h2 := hexVal_hexDigit (c.toNat % 16) (by omega)
+  have h0 : hexVal? '0' = some 0 := by decide
+  show getu4 ('\\' :: 'u' :: '0' :: '0' :: hexDigit (c.toNat / 16) :: hexDigit (c.toNat % 16) :: rest) = _
+  unfold getu4
+  simp only [h0, h1, h2]
+  congr 1
+  omega
+
+theorem utf8Encode_ascii (c : Char) (hc : c.toNat < 128) : utf8Encode c.toNat = [c] := by
+  unfold utf8Encode
+  have : c.toNat < 0x80 := hc
+  simp only [this, if_true, Char.ofNat_toNat]
+
+open GoblVerif.Spec.C06 in
+theorem jsonPlain_spec (c : Char) (h : jsonPlain c = true) :
+    c ≠ '"' ∧ c ≠ '\\' ∧ ¬ c.toNat < 0x20 ∧ c.toNat < 0x80 := by
+  unfold jsonPlain at h
+  simp only [Bool.and_eq_true, decide_eq_true_eq, bne_iff_ne, ne_eq] at h
+  obtain ⟨⟨⟨h1, h2⟩, h3⟩, h4⟩ := h
+  exact ⟨h3, h4, by omega, h2⟩
+
+/-- one step of the decoder over a character that stands for itself -/
+theorem jsonStringBody_plain (f : Nat) (c : Char) (rest : Text) (h : Spec.C06.jsonPlain c = true) :
+    jsonStringBody (f + 1) (c :: rest) = (jsonStringBody f rest).map (c :: ·) := by
+  obtain ⟨h1, h2, h3, h4⟩ := jsonPlain_spec c h
+  rw [jsonStringBody.eq_def]
+  simp only [beq_iff_eq, h1, h2, if_false, h3, h4, if_true]
+
+open GoblVerif.Spec.C06 in
+/-- one step of the decoder over a character written as `\u00XX` -/
+theorem jsonStringBody_escaped (f : Nat) (c : Char) (rest : Text) (hc : c.toNat < 128) :
+    jsonStringBody (f + 1) (uEscape c ++ rest) = (jsonStringBody f rest).map (c :: ·) := by
+  have hg := getu4_uEscape c hc rest
+  have hshape : uEscape c ++ rest =
+      '\\' :: 'u' :: '0' :: '0' :: hexDigit (c.toNat / 16) :: hexDigit (c.toNat % 16) :: rest := rfl
+  rw [hshape] at hg ⊢
+  rw [jsonStringBody.eq_def]
+  have hq : ('\\' == '"') = false := by decide
+  have hb : ('\\' == '\\') = true := by decide
+  have hu : ('u' == 'u') = true := by decide
+  simp only [hq, hb, hu, Bool.false_eq_true, if_false, if_true, hg]
+  have hs : ¬ (0xD800 ≤ c.toNat ∧ c.toNat < 0xE000) := by omega
+  simp only [Bool.and_eq_true, decide_eq_true_eq, hs, if_false]
+  rw [utf8Encode_ascii c hc]
+  simp [List.drop]
+
+theorem jsonStringBody_close (f : Nat) : jsonStringBody (f + 1) ['"'] = some [] := by
+  rw [jsonStringBody.eq_def]
+  simp
+
+open GoblVerif.Spec.C06 in
+theorem spell_length (mask : List Bool) (s : Text) : s.length ≤ (spell mask s).length := by
+  induction s generalizing mask with
+  | nil => simp [spell]
+  | cons c cs ih =>
+    unfold spell
+    have := ih mask.tail
+    by_cases hm : mask.headD false = true
+    · simp only [hm, if_true, List.length_append, List.length_cons]
+      unfold uEscape; simp; omega
+    · simp only [hm, Bool.false_eq_true, if_false, List.length_append, List.length_cons]
+      simp; omega
+
+open GoblVerif.Spec.C06 in
+/-- every spelling of a text of plain characters decodes to that text -/
+theorem jsonStringBody_spell (s : Text) (hs : ∀ c ∈ s, jsonPlain c = true) :
+    ∀ (mask : List Bool) (f : Nat), s.length + 1 ≤ f →
+      jsonStringBody f (spell mask s ++ ['"']) = some s := by
+  induction s with
+  | nil =>
+    intro mask f hf
+    obtain ⟨f, rfl⟩ : ∃ k, f = k + 1 := ⟨f - 1, by omega⟩
+    simp only [spell, List.nil_append]
+    exact jsonStringBody_close f
+  | cons c cs ih =>
+    intro mask f hf
+    obtain ⟨f, rfl⟩ : ∃ k, f = k + 1 := ⟨f - 1, by simp at hf; omega⟩
+    have hc := hs c (by simp)
+    have ih' := ih (fun d hd => hs d (by simp [hd])) mask.tail f (by simp at hf; omega)
+    unfold spell
+    by_cases hm : mask.headD false = true
+    · simp only [hm, if_true, List.append_assoc]
+      rw [jsonStringBody_escaped f c _ (jsonPlain_spec c hc).2.2.2, ih']
+      rfl
+    · simp only [hm, Bool.false_eq_true, if_false, List.cons_append, List.nil_append]
+      rw [jsonStringBody_plain f c _ hc, ih']
+      rfl
+
+open GoblVerif.Spec.C06 in
+theorem jsonDecodeString_spelling (mask : List Bool) (s : Text) (hs : ∀ c ∈ s, jsonPlain c = true) :
+    jsonDecodeString (jsonSpelling mask s) = some s := by
+  unfold jsonSpelling jsonDecodeString
+  simp only
+  apply jsonStringBody_spell s hs
+  have := spell_length mask s
+  simp; omega
+
+open GoblVerif.Spec.C06 in
+/-- what `jsonText` makes of a spelling: the text itself, never the null literal -/
+theorem jsonText_spelling (mask : List Bool) (s : Text) (hs : ∀ c ∈ s, jsonPlain c = true) :
+    jsonText (jsonSpelling mask s) = .ok (s, false) := by
+  unfold jsonText
+  rw [jsonDecodeString_spelling mask s hs]
+  simp [jsonSpelling]
+
+/-- a value that does not start with a quote is taken as it is -/
+theorem jsonText_bare (s : Text) (h : s.head? ≠ some '"') : jsonText s = .ok (s, s == nullText) := by
+  unfold jsonText
+  have : (s.head? == some '"') = false := by simpa using h
+  simp [this]
+
+open GoblVerif.Spec.C06 in
+theorem isDigitC_plain (c : Char) (h : isDigitC c = true) : jsonPlain c = true := by
+  unfold isDigitC at h
+  simp only [Bool.and_eq_true, decide_eq_true_eq] at h
+  unfold jsonPlain
+  have h1 : c ≠ '"' := by intro e; subst e; revert h; decide
+  have h2 : c ≠ '\\' := by intro e; subst e; revert h; decide
+  simp only [Bool.and_eq_true, decide_eq_true_eq, bne_iff_ne, ne_eq]
+  exact ⟨⟨⟨by omega, by omega⟩, h1⟩, h2⟩
+
+open GoblVerif.Spec.C06 in
+theorem isDigits_plain (s : Text) (h : isDigits s = true) : ∀ c ∈ s, jsonPlain c = true := by
+  intro c hc
+  have := isDigits_all s h
+  rw [List.all_eq_true] at this
+  exact isDigitC_plain c (this c hc)
+
+open GoblVerif.Spec.C06 in
+/-- every member of the amount pattern consists of plain characters -/
+theorem isAmountText_plain (s : Text) (h : isAmountText s = true) : ∀ c ∈ s, jsonPlain c = true := by
+  have body : ∀ u, isAmountBody u = true → ∀ c ∈ u, jsonPlain c = true := by
+    intro u hu c hc
+    rcases isAmountBody_shape u hu with hd | ⟨a, m, rfl, ha, hm⟩
+    · exact isDigits_plain u hd c hc
+    · simp only [List.mem_append, List.mem_cons] at hc
+      rcases hc with hc | rfl | hc
+      · exact isDigits_plain a ha c hc
+      · decide
+      · exact isDigits_plain m hm c hc
+  unfold isAmountText at h
+  cases s with
+  | nil => intro c hc; simp at hc
+  | cons d r =>
+    by_cases hd : d = '-'
+    · subst hd
+      have hb := body r (by simpa [stripMinus] using h)
+      intro c hc
+      simp only [List.mem_cons] at hc
+      rcases hc with rfl | hc
+      · decide
+      · exact hb c hc
+    · have : stripMinus (d :: r) = d :: r := by
+        unfold stripMinus
+        split
+        · rename_i heq; simp at heq; exact absurd heq.1 hd
+        · rfl
+      rw [this] at h
+      exact body _ h
+
+open GoblVerif.Spec.C06 in
+/-- … and so does every member of the percentage pattern -/
+theorem isPercentageText_plain (s : Text) (h : isPercentageText s = true) : ∀ c ∈ s, jsonPlain c = true := by
+  unfold isPercentageText at h
+  cases hl : s.getLast? with
+  | none => rw [hl] at h; simp at h
+  | some l =>
+    rw [hl] at h
+    by_cases hp : l = '%'
+    · subst hp
+      simp only at h
+      have hne : s ≠ [] := by intro e; subst e; simp at hl
+      have hsplit : s = s.dropLast ++ ['%'] := by
+        have := List.dropLast_append_getLast? '%' (by simpa using hl)
+        exact this.symm
+      intro c hc
+      rw [hsplit] at hc
+      simp only [List.mem_append, List.mem_singleton] at hc
+      rcases hc with hc | rfl
+      · exact isAmountText_plain _ h c hc
+      · decide
+    · exfalso
+      split at h
+      · rename_i heq; simp at heq; exact hp heq
+      · simp at h
+
 
 end GoblVerif.Codec
